@@ -19,11 +19,11 @@ GROUPS = {
             dict(name="advance_slices_5", complete=True, targets=["advance_slices"], covers=1, tier="thorough", timeout=900,
                  bound="5 slices (= SmallVec<[_;5]> call site)"),
             dict(name="advance_slices_overrun_panics", complete=True, should_panic=True, targets=["advance_slices"], tier="quick"),
-            dict(name="write_all_vectored_scripted_1", complete=False, targets=["write_all_vectored"], covers=2, tier="thorough", timeout=3000,
+            dict(name="write_all_vectored_scripted_1", complete=False, targets=["write_all_vectored"], covers=2, tier="off", timeout=3000,
                  bound="1 slice x <= 2 bytes, <= 3 writer calls (accept any k / Interrupted / Ok(0) / hard error, symbolic per call)"),
-            dict(name="write_all_vectored_scripted_2", complete=False, targets=["write_all_vectored"], covers=2, tier="thorough", timeout=3000,
+            dict(name="write_all_vectored_scripted_2", complete=False, targets=["write_all_vectored"], covers=2, tier="off", timeout=3000,
                  bound="2 slices x <= 2 bytes, <= 3 writer calls (accept any k / Interrupted / Ok(0) / hard error, symbolic per call)"),
-            dict(name="write_all_vectored_scripted_3", complete=False, targets=["write_all_vectored"], covers=2, tier="thorough", timeout=1500,
+            dict(name="write_all_vectored_scripted_3", complete=False, targets=["write_all_vectored"], covers=2, tier="off", timeout=1500,
                  bound="3 slices x <= 2 bytes, <= 3 writer calls"),
         ],
     ),
